@@ -1,14 +1,48 @@
-import PcfgVerif.Model.Loader
+import PcfgVerif.Properties.LoaderCore
 /-!
 # C14 — skip_brute and all_lower are pure restrictions of the default run
-(loader theorems `loadBase_skip` / `loadBase_skip_noM` are added when proved)
+
+Loader level (this file): under `skip_brute` the base-structure list is the default list without the
+structures containing `M`, in the same order, each file probability divided by `1 − P(M)` — with or
+without an `M` line.  Because every pre-terminal probability is `base probability × …`, dividing all
+base probabilities by one positive constant leaves every comparison the next function makes
+unchanged over the rationals; over doubles the division is monotone (correctly rounded), and the
+stream comparison is checked exactly on rulesets where `1 − P(M)` is a power of two.
 -/
 namespace Pcfg.C14
+variable {P : Type}
+
+/-- `--skip_brute` = filter out `M`, rescale by `1/(1 − P(M))`, keep the order -/
+theorem C14_skip_brute (parseP : CPs → Option P) (A : PArith P) (isAlpha : Nat → Bool) (text : CPs)
+    (hone : ∀ p, A.div p A.one = some p)
+    (bs : List (BaseS P)) (hdef : loadBase parseP A isAlpha false text = some bs)
+    (tot : P) (htot : skipTotal parseP A text = some tot)
+    (hdiv : ∀ b ∈ bs, (A.div b.prob tot).isSome) :
+    loadBase parseP A isAlpha true text =
+      some ((bs.filter fun b => !(b.replacements.contains [0x4d])).filterMap fun b =>
+        (A.div b.prob tot).map fun q => { b with prob := q }) :=
+  loadBase_skip parseP A isAlpha text hone bs hdef tot htot hdiv
+
+/-- a ruleset without a Markov structure is loaded unchanged under `--skip_brute` -/
+theorem C14_skip_brute_no_markov (parseP : CPs → Option P) (A : PArith P) (isAlpha : Nat → Bool) (text : CPs)
+    (hone : ∀ p, A.div p A.one = some p)
+    (bs : List (BaseS P)) (hdef : loadBase parseP A isAlpha false text = some bs)
+    (hnoM : ∀ b ∈ bs, b.replacements.contains [0x4d] = false)
+    (hscan : findMarkovProb parseP (textModeLines text) = some none) :
+    loadBase parseP A isAlpha true text = some bs :=
+  loadBase_skip_noM parseP A isAlpha text hone bs hdef hnoM hscan
+
+/-- the loader puts `C<n>` directly after every `A<n>` and inserts nothing else -/
+theorem C14_case_insertion (reps : List CPs) (h : ∀ r ∈ reps, r.head? ≠ some 0x43) :
+    (insertCase reps).filter (fun r => r.head? != some 0x43) = reps ∧
+    ∀ (i : Nat) r, (insertCase reps)[i]? = some r → r.head? = some 0x41 →
+      (insertCase reps)[i + 1]? = some (0x43 :: r.tail) :=
+  insertCase_spec reps h
 
 /-- `--all_lower`: the mask list of length `n` is the single mask `L…L` with probability one -/
-theorem C14_all_lower_masks {P : Type} (one : P) (n : Nat) :
+theorem C14_all_lower_masks (one : P) (n : Nat) :
     (allLowerMasks one n).length = 1 ∧
-    ∀ g ∈ allLowerMasks one n, g.values = [List.replicate n 0x4c] := by
+    ∀ g ∈ allLowerMasks one n, g.values = [List.replicate n 0x4c] ∧ g.prob = one := by
   simp [allLowerMasks]
 
 end Pcfg.C14
